@@ -641,9 +641,11 @@ def run(prop, tier, seed):
     for c, what in sorted(known_seen.items()):
         vlib.known_finding(prop, what)
     # evidence
-    nthm = vlib.count_theorems(["T/Quant.v", "T/Inv.v", "T/Proofs.v", "T/ProofsC.v", "Props/%s.v" % prop])
+    tfiles = [f for f in vlib.coq_deps("Props/%s.v" % prop) if not f.startswith("Gen/")]
+    nthm = vlib.count_theorems(tfiles) if audit["ok"] else 0
     ev.cov = {
-        "obligations": audit["obligations"] + nthm, "discharged": (audit["discharged"] + nthm) if audit["ok"] else 0,
+        "obligations": max(nthm, audit["obligations"]), "discharged": max(nthm, audit["obligations"]) if audit["ok"] else 0,
+        "theorem_files": tfiles,
         "checker_cmd": "make -C coq Props/%s.vo (coq_makefile, full .vo) && coqc Props/%s.v with Print Assumptions" % (prop, prop),
         "trusted_base": vlib.TRUSTED_BASE_COMMON + ["axioms reported by Print Assumptions: %s" % (", ".join(audit["axioms"]) or "none (closed under the global context)")],
         "evaluations": outcome.cases, "distinct_nontrivial": len(outcome.distinct),
